@@ -17,7 +17,7 @@ RULE = ('timestamps are whole hours from 2020-01-01 (index points on a 6-hour gr
         'bound positions x 4 brackets. stitch cases: 1-4 series, increasing / non-strict / decreasing bound lists given as ub, lb or both, '
         'n in 1..number of series. unslice cases: stitch, df_unslice, stitch again. Every result is compared cell by cell (index and values) '
         'in Coq with M_slice; the oracle recomputes from the property text which timestamps belong to the window / to which interval, and '
-        'from which series each column must come, by plain loops over the real output. Varied in the random streams: bounds as datetime / date / Timestamp / np.datetime64 / YYYY-MM-DD / yyyymmdd, eras 1700 / 1970 / 2020 / 2250, keyword and tuple call forms, Series name / column labels / index name, DatetimeIndex input, 150-400 row series, up to 8 series, one series with several windows. '
+        'from which series each column must come, by plain loops over the real output. Stream G (1 500): index shuffled / newest-first / with 2-3 rows per timestamp, all brackets, dates and times of day, wrap-around (rows sharing a timestamp are compared as a multiset after sort_index). Varied in the random streams: bounds as datetime / date / Timestamp / np.datetime64 / YYYY-MM-DD / yyyymmdd, eras 1700 / 1970 / 2020 / 2250, keyword and tuple call forms, Series name / column labels / index name, DatetimeIndex input, 150-400 row series, up to 8 series, one series with several windows. '
         'non-trivial = a bound coincides with an index point, '
         'a time-of-day bound, or more than one series; distinct by full case')
 EXPLANATION = ('theorems C13_* (coq/props/C13.v) hold for series of any length and any bounds: a single slice is exactly the filter of the rows '
@@ -30,7 +30,7 @@ EXPLANATION = ('theorems C13_* (coq/props/C13.v) hold for series of any length a
 TRUSTED = ['modelled, not verified: pandas 3.0 df[lb:ub] on a sorted DatetimeIndex, boolean-mask selection, DatetimeIndex.time, '
            'pd.concat (rows, and axis=1 outer join), sort_index, dictable.listby grouping in df_unslice (compared with the model on every run)',
            'harness/props/c13.py rendering of inputs and observations']
-ASSUMPTIONS = ['datetime index strictly increasing', 'elements of a stitched list are Series; bound lists are monotone and as long as the list of series',
+ASSUMPTIONS = ['single slices: the index may be in any stored order and repeat timestamps; stitching / df_unslice: strictly increasing timestamps', 'elements of a stitched list are Series; bound lists are monotone and as long as the list of series',
                'df_unslice: values are not NaN (NaN marks "no data" in the stitched frame) and bounds strictly increasing']
 EXHAUSTIVE = {'quick': False, 'thorough': False}
 
@@ -575,9 +575,11 @@ LEVEL_TEXT = ('machine-checked Coq theorems (C13_*, series of any length, any bo
               'interval i from the join of series i..i+n-1 with every timestamp at most once, df_unslice returns for each bound exactly the visible '
               'part of its series and df_unslice then stitch is the identity (general theorem C13_unslice_roundtrip, no bound on k, n or lengths); '
               'the model is compared in Coq with the real df_slice / df_unslice on thousands of generated cases and a property-text oracle '
-              're-derives every expected row from the real outputs')
+              're-derives every expected row from the real outputs; single slices are proved and exercised for indexes in any stored order '
+              '(shuffled, newest first) and with repeated timestamps (rows kept in stored order; wrap-around = same multiset, in time order)')
 LEVEL_NOTE = ('trusted: Coq kernel/vm_compute; modelled not verified: pandas label slicing / masks / concat / sort_index (compared on every run). '
               'Hypotheses of the df_unslice theorems (shown satisfiable by C13_unslice_example): strictly increasing timestamps and bounds, '
               'non-NaN values (df_unslice drops NaN rows), as many bounds as series, 1 <= n <= k. The wrap-around window, the n-column join and '
-              'df_unslice of a stitched Series are modelled as repaired (fix commits a7d160b, acd8f1e)')
+              'df_unslice of a stitched Series are modelled as repaired (fix commits a7d160b, acd8f1e); the label-slice fast path is modelled as '
+              'taken only on an index in time order (fixes/C13.patch: the current tree answers df[lb:ub] by POSITION on an unsorted index)')
 TECHNIQUE = 'Coq proof (induction over sorted lists) over a transcribed model + differential correspondence in vm_compute + property-text oracle'
